@@ -70,6 +70,8 @@ def random_lens(rnd, nsurf=None, kinds=("standard",), mirrors=False, tilts=False
         kind = rnd.choice(list(kinds))
         R = rnd_radius(rnd, lo)
         conic = rnd.uniform(-1.5, 0.5) if (conics and rnd.random() < 0.4) else 0.0
+        if conics and rnd.random() < 0.08:
+            conic = -1.0        # exact paraboloid: the quadratic coefficient of the intersection vanishes for axial rays
         if kind == "standard" and math.isinf(R):
             conic = 0.0
         kw = dict(index=j, surface_type=kind, radius=R, conic=conic, is_stop=(j == stop_at))
